@@ -1,6 +1,39 @@
-(* Ops/C12.v — protocol entry points for property C12 (stub until the model is built). *)
-From Coq Require Import List String.
-From PrefVerif Require Import Lib.Val.
+(* Ops/C12.v — protocol entry points for property C12 (nearly-single-peaked optimisers).
+   payload conventions: order = list of classes (lists of N); profile = list of orders (instance.orders);
+   alts / axis / D = list of N; V = list of indices into the profile; k = int. *)
+From Coq Require Import List ZArith NArith String.
+From PrefVerif Require Import Lib.Val Model.SP Model.Deletion.
 Import ListNotations.
+Open Scope string_scope.
 
-Definition ops : optable := [].
+Definition d_alts (v : val) : list N := dlist dN v.
+Definition d_order (v : val) : order := dlist (dlist dN) v.
+Definition d_profile (v : val) : list order := dlist d_order v.
+Definition d_idx (v : val) : list nat := dlist dnat v.
+
+(* (alts profile) -> nat *)
+Definition op_min_alt (v : val) : val := enat (min_alt_del (d_alts (dnth 0 v)) (d_profile (dnth 1 v))).
+Definition op_min_vot (v : val) : val := enat (min_vot_del (d_alts (dnth 0 v)) (d_profile (dnth 1 v))).
+(* (alts profile k axis D) -> bool *)
+Definition op_cert_alt (v : val) : val :=
+  ebool (cert_alt (d_alts (dnth 0 v)) (d_profile (dnth 1 v)) (dnat (dnth 2 v)) (d_alts (dnth 3 v)) (d_alts (dnth 4 v))).
+(* (alts profile k axis V) -> bool *)
+Definition op_cert_vot (v : val) : val :=
+  ebool (cert_vot (d_alts (dnth 0 v)) (d_profile (dnth 1 v)) (dnat (dnth 2 v)) (d_alts (dnth 3 v)) (d_idx (dnth 4 v))).
+(* (S alts profile) -> optimum of the profile restricted to the alternatives of S (lower bounds: opt_restrict_mono) *)
+Definition op_core_alt (v : val) : val :=
+  let S := d_alts (dnth 0 v) in
+  enat (min_alt_del (restrict_alts S (d_alts (dnth 1 v))) (map (restrict_order S) (d_profile (dnth 2 v)))).
+Definition op_core_vot (v : val) : val :=
+  let S := d_alts (dnth 0 v) in
+  enat (min_vot_del (restrict_alts S (d_alts (dnth 1 v))) (map (restrict_order S) (d_profile (dnth 2 v)))).
+(* (alts profile D) -> bool ; (alts profile V) -> bool : is this deletion set sufficient? (diagnostics) *)
+Definition op_alt_ok (v : val) : val :=
+  ebool (alt_del_ok (d_alts (dnth 0 v)) (d_profile (dnth 1 v)) (d_alts (dnth 2 v))).
+Definition op_vot_ok (v : val) : val :=
+  ebool (vot_del_ok (d_alts (dnth 0 v)) (d_profile (dnth 1 v)) (d_idx (dnth 2 v))).
+
+Definition ops : optable :=
+  [ ("c12.min_alt", op_min_alt); ("c12.min_vot", op_min_vot); ("c12.cert_alt", op_cert_alt);
+    ("c12.cert_vot", op_cert_vot); ("c12.core_alt", op_core_alt); ("c12.core_vot", op_core_vot);
+    ("c12.alt_ok", op_alt_ok); ("c12.vot_ok", op_vot_ok) ].
